@@ -192,6 +192,30 @@ func (j *JSONRPCServer) ExecuteActions(
 	storage := make(map[string][]byte)
 	ts := tstate.New(1)
 
+	// Inside a transaction every action runs with the union of the keys declared by all of
+	// the transaction's actions, so execute with the same scope and the same parent values.
+	txStateKeys := make(state.Keys)
+	for actionIndex, action := range actions {
+		for key, permission := range action.StateKeys(args.Actor, chain.CreateActionID(ids.Empty, uint8(actionIndex))) {
+			txStateKeys.Add(key, permission)
+		}
+	}
+	txStorageKeys := make([][]byte, 0, len(txStateKeys))
+	for key := range txStateKeys {
+		txStorageKeys = append(txStorageKeys, []byte(key))
+	}
+	txValues, txErrs := j.vm.ReadState(ctx, txStorageKeys)
+	for _, err := range txErrs {
+		if err != nil && !errors.Is(err, database.ErrNotFound) {
+			return fmt.Errorf("failed to read state: %w", err)
+		}
+	}
+	for i, value := range txValues {
+		if value != nil {
+			storage[string(txStorageKeys[i])] = value
+		}
+	}
+
 	for actionIndex, action := range actions {
 		// Get expected state keys
 		stateKeysWithPermissions := action.StateKeys(args.Actor, chain.CreateActionID(ids.Empty, uint8(actionIndex)))
@@ -216,7 +240,7 @@ func (j *JSONRPCServer) ExecuteActions(
 		}
 
 		tsv := ts.NewView(
-			stateKeysWithPermissions,
+			txStateKeys,
 			state.ImmutableStorage(storage),
 			len(stateKeysWithPermissions),
 		)
